@@ -7,9 +7,9 @@ descriptor table) and on `sfmodel ledger`; the two are compared operation by ope
 implementation's own transcript (`ledger end`): heap balance 0 bytes / 0 blocks, no unreachable block (LeakSanitizer),
 no new descriptor, empty private TMPDIR, sf_close returned 0, no sanitizer abort.
 """
-import re, struct, os
+import re, struct, os, sys
 
-from .. import formats, c03fuzz
+from .. import formats, c03fuzz, lateopen, closefault
 from ..core import Violation, modules_for
 
 LEAK_ENV = {"ASAN_OPTIONS": "exitcode=77:detect_leaks=1:allocator_may_return_null=1:abort_on_error=0:leak_check_at_exit=0"}
@@ -206,17 +206,20 @@ def gen_wellformed(ctx, fmts, per_fmt, rng):
 def gen_concurrent(ctx, fmts, rng, n):
     """several handles open at the same time on different stores: opens, histories and closes interleave"""
     out = []
-    pool = [f for f in fmts if f.major != 0x16]
+    pool = list(fmts)
+    sd2 = [f for f in fmts if f.major == 0x16]
     routes = ["vio", "path", "fd1", "fd0"]
     for k in range(n):
         sc = Sc("conc-%d" % k, "concurrent")
         nh = rng.choice([2, 2, 3])
         live = []
         for j in range(nh):
-            f = rng.choice(pool)
+            # SD2 (a second descriptor for the resource fork, opened and closed inside sf_open) is the first handle of every fourth scenario:
+            # the handles opened after it get the numbers it used
+            f = rng.choice(sd2) if (sd2 and k % 4 == 0 and j == 0) else rng.choice(pool)
             ch = 1 if f.maxch < 2 or rng.random() < 0.5 else 2
             hn = "h%d" % j
-            sc.open(hn, "s%d" % j, "w", f.word, ch, rng.choice(routes))
+            sc.open(hn, "s%d" % j, "w", f.word, ch, "path" if f.major == 0x16 else rng.choice(routes), ext="sd2" if f.major == 0x16 else "x")
             live.append((hn, ch))
             hn2, ch2 = rng.choice(live)
             history(sc, rng, hn2, ch2, rng.choice([1, 2, 3]))
@@ -848,11 +851,35 @@ def known_findings(ctx):
             ctx.known_finding(kf, "%s: %s" % (kf["id"], kf["text"]))
 
 
+ALLOC_RE = re.compile(r"[^_a-z](calloc|malloc|realloc|strdup|psf_open_tmpfile|peak_info_calloc|psf_cues_alloc|psf_instrument_alloc|broadcast_var_alloc|cart_var_alloc|gsm_create|psf_memdup)\s*\(")
+
+
+def site_census(ctx):
+    """evidence only: allocation calls per source file of the tree under test next to the rows of the site table (lean/SfModel/LedgerSites.lean)"""
+    from .. import build
+    lean = open(os.path.join(build.LEAN_DIR, "SfModel", "LedgerSites.lean")).read()
+    rows = {}
+    for m in re.finditer(r'⟨"([a-z0-9_]+\.c)"', lean):
+        rows[m.group(1)] = rows.get(m.group(1), 0) + 1
+    census = {}
+    src = os.path.join(build.REPO, "src")
+    for f in sorted(os.listdir(src)):
+        if not f.endswith(".c") or f.startswith(("test_", "ogg", "flac", "mpeg", "windows")):
+            continue
+        text = re.sub(r"/\*.*?\*/", "", open(os.path.join(src, f), errors="replace").read(), flags=re.S)
+        n = len(ALLOC_RE.findall(text))
+        if n or f in rows:
+            census[f] = {"allocation_calls_in_tree": n, "table_rows": rows.get(f, 0)}
+    ctx.notes["allocation_site_census"] = census
+    ctx.notes["allocation_files_without_a_table_row"] = sorted(f for f, v in census.items() if v["allocation_calls_in_tree"] and not v["table_rows"])
+
+
 def run(ctx):
     if getattr(ctx, "replay", None):
         return replay(ctx, ctx.replay)
     quick = ctx.tier == "quick"
     failed = ctx.lean_stage(modules_for("C16"))
+    site_census(ctx)
     ctx.run_regressions()
     known_findings(ctx)
     rng = ctx.rng
@@ -868,10 +895,13 @@ def run(ctx):
     seeds = make_seeds(ctx, seed_formats(fmts))
     ctx.notes["seed_files"] = len(seeds)
     mal = gen_malformed(ctx, seeds, rng, 24 if quick else 200, 3 if quick else 1)
+    late_found, late_seeds = lateopen.run_for(ctx, "C16", sys.modules[__name__], fmts)     # malformed inputs rejected AFTER each allocating chunk
+    scs += lateopen.prefix_scenarios(sys.modules[__name__], late_seeds, quick, rng)          # ... and their accepted counterparts, peeked
+    scs += closefault.scenarios(ctx, sys.modules[__name__], fmts)          # sf_close on failing I/O, every codec: fault at every callback of the close, EFBIG, EBADF
     allsc = scs + mal
     tr = run_scripts(ctx, allsc)
 
-    found_input = False
+    found_input = late_found
     kinds = {}
     # ---- property predicate on the implementation's transcripts ----
     nviol = 0
